@@ -90,6 +90,7 @@ type Spec struct {
 	MapInvs  map[string]*Clause // global map variable -> invariant over its values (v), assumed at lookups
 	Assumes  []string // every assumption-like clause, for the pre-report scan
 	Order    []string
+	nGhost   int
 }
 
 func newSpec() *Spec {
@@ -380,7 +381,10 @@ func (s *Spec) load(path string, prefix string) error {
 			if curOwner == "" || len(fields) < 4 || fields[1] != "field" {
 				return fmt.Errorf("%s:%d: ghost field outside interface/struct block", path, ln)
 			}
-			g := &GhostField{Owner: curOwner, Name: fields[2], Type: strings.Join(fields[3:], " "), Index: len(s.Ghosts[curOwner])}
+			// ghost indices are unique across all owners, so ghost cells of different
+			// model fields never coincide even if two owners share an address
+			s.nGhost++
+			g := &GhostField{Owner: curOwner, Name: fields[2], Type: strings.Join(fields[3:], " "), Index: s.nGhost}
 			s.Ghosts[curOwner] = append(s.Ghosts[curOwner], g)
 			return nil
 		case "monitor":
